@@ -50,6 +50,7 @@ inductive Kind
   | ret                     -- _ret / cret: needs the return value on top; ends the unit
   | startVar                -- _startVariadic: pushes the marker
   | callVar                 -- _callVariadic/_newVariadic/...: pops down to the marker, leaves marker+result
+  | endVar                  -- _endVariadic: removes the slot below the top (the marker, if it is the pending one)
 deriving DecidableEq, Repr
 
 structure Node where
@@ -132,7 +133,11 @@ def stepNormal (code : List Node) (s : St) : List St :=
     | .callVar =>
       match s.vs with
       | [] => []
-      | m :: vs' => [⟨s.pc + 1, m + 2, vs', s.fs⟩]
+      | m :: _ => [⟨s.pc + 1, m + 2, s.vs, s.fs⟩]
+    | .endVar =>                                   -- vm.go:3625: sp--; stack[sp-1] = stack[sp]
+      match s.vs with
+      | m :: vs' => if m + 2 = s.h then [⟨s.pc + 1, s.h - 1, vs', s.fs⟩] else [⟨s.pc + 1, s.h - 1, s.vs, s.fs⟩]
+      | [] => [⟨s.pc + 1, s.h - 1, s.vs, s.fs⟩]
 
 /-- All successors: normal ones plus a throw from this instruction (any instruction may throw). -/
 def succs (code : List Node) (s : St) : List St :=
@@ -161,6 +166,7 @@ def safe (code : List Node) (endOk : Bool) (s : St) : Bool :=
         (match s.fs with | [] => false | fr :: _ => isTry code fr.tryPc)
      | .ret => decide (1 ≤ s.h) && s.fs.isEmpty
      | .startVar => true
+     | .endVar => true
      | .callVar => (match s.vs with | [] => false | m :: _ => decide (m + 1 ≤ s.h)))
 
 abbrev AState := Nat × List Nat × List Frame
@@ -829,18 +835,20 @@ def plainNode (need : Int) (edges : List (Int × Int)) : Node := ⟨need.toNat, 
 operand-sensitive in a way the table cannot express (leaveBlock's `if ss > 0`, loadMixed's callee flag). -/
 def handNames : List String :=
   ["call", "callEval", "callEvalStrict", "_callVariadic", "_callEvalVariadic", "_callEvalVariadicStrict",
-   "_newVariadic", "_superCallVariadic", "_startVariadic", "_pushSpread", "_ret", "cret", "_throw",
+   "_newVariadic", "_superCallVariadic", "_startVariadic", "_endVariadic", "_pushSpread", "_ret", "cret", "_throw",
    "try", "leaveTry", "enterFinally", "leaveFinally", "bindGlobal", "enterFunc", "enterFuncStashless",
    "enterFuncBody", "leaveBlock", "loadMixed", "loadMixedLex", "loadMixedStack", "loadMixedStack1",
    "loadMixedStackLex", "loadMixedStack1Lex", "newArrowFunc", "newAsyncArrowFunc", "newMethod", "newAsyncMethod",
-   "newGeneratorMethod", "yieldMarker", "yieldEmpty"]
+   "newGeneratorMethod", "yieldMarker", "yieldEmpty", "nil"]
 
 def handNode (name : String) (ops : List (String × Int)) : Option Node :=
   let n := lookupOp ops "n"
   if name = "call" ∨ name = "callEval" ∨ name = "callEvalStrict" then some (plainNode (n + 2) [(1, -(n + 1))])   -- vm.go:3633
   else if name = "_callVariadic" ∨ name = "_callEvalVariadic" ∨ name = "_callEvalVariadicStrict"
        ∨ name = "_newVariadic" ∨ name = "_superCallVariadic" then some ⟨0, [], .callVar⟩
+  else if name = "nil" then some (plainNode 1073741824 [])   -- unpatched placeholder: executing it dereferences nil → never `safe` if reachable
   else if name = "_startVariadic" then some ⟨0, [], .startVar⟩
+  else if name = "_endVariadic" then some ⟨2, [], .endVar⟩
   else if name = "_pushSpread" then some (plainNode 1 [(1, 0)])      -- virtual height: a spread counts as one value
   else if name = "_ret" ∨ name = "cret" then some ⟨1, [], .ret⟩
   else if name = "_throw" then some (plainNode 1 [])
